@@ -37,11 +37,19 @@ def main():
         rec['suite_passes'] = rc == 0
         if rc != 0:
             print('SUITE FAILS WITH PATCH', o[-800:]); return 1
-        env = dict(ENV, VERIF_REPO=wt)
+        # a private copy of the harness (VERIF_ROOT): test binaries, the worker child and replay files of this
+        # evaluation never meet those of a check that runs against /repo at the same time
+        root = '/tmp/benigneval_root_' + name
+        shutil.rmtree(root, ignore_errors=True); os.makedirs(root + '/bin')
+        for item in ('harness', 'corpus', 'KNOWN_FINDINGS.txt', 'properties.jsonl'):
+            src = os.path.join('/verif', item)
+            (shutil.copytree if os.path.isdir(src) else shutil.copy)(src, os.path.join(root, item))
+        rc, o = run(['go', 'build', '-o', root + '/bin/vcheck', './cmd/vcheck'], cwd=root + '/harness'); assert rc == 0, o
+        env = dict(ENV, VERIF_REPO=wt, VERIF_ROOT=root, VERIF_EVIDENCE_DIR=root + '/evidence')
         for i in range(1, 21):
             p = 'C%02d' % i
             t0 = time.time()
-            pr = subprocess.run(['/verif/bin/vcheck', '-prop', p, '-tier', 'quick'], cwd='/verif', env=env, capture_output=True, text=True, errors='replace', timeout=3600)
+            pr = subprocess.run([root + '/bin/vcheck', '-prop', p, '-tier', 'quick'], cwd=root, env=env, capture_output=True, text=True, errors='replace', timeout=3600)
             rc, o = pr.returncode, pr.stdout + pr.stderr
             text = o[o.index('VIOLATION-TEXT'):][:900] if 'VIOLATION-TEXT' in o else ''
             rec['ran'].append({'cmd': f'VERIF_REPO=<patched copy> ./bin/vcheck -prop {p} -tier quick', 'exit': rc, 'seconds': round(time.time() - t0, 1), 'excerpt': text or (o[-400:] if rc != 0 else '')})
@@ -50,6 +58,7 @@ def main():
                 print(name, p, 'exit', rc, (text or o[-600:])[:700], flush=True)
     finally:
         run(['git', '-C', '/repo', 'worktree', 'remove', '--force', wt]); shutil.rmtree(wt, ignore_errors=True)
+        shutil.rmtree('/tmp/benigneval_root_' + name, ignore_errors=True)
     rec['alarms'] = alarms
     dst = os.path.join('/verif/seeded/benign', name)
     os.makedirs(dst, exist_ok=True)
